@@ -62,6 +62,10 @@ SliceFails(e) ==
   IF e.exc # "" THEN {"C15:SliceRaises"} ELSE
   Chk("C15:SliceIsLinearString", e.res.seq = SliceSeq(Abs(e.pre), e.a, e.b))
   \cup Chk("C15:SliceNotCircular", ~e.res.circular /\ e.res.topo # "circular")
+SliceStepFails(e) ==
+  IF e.exc # "" THEN {"C15:SliceRaises"} ELSE
+  Chk("C15:SliceIsLinearString", e.res.seq = StepSliceSeq(Abs(e.pre), e.a, e.b, e.step))
+  \cup Chk("C15:SliceNotCircular", ~e.res.circular /\ e.res.topo # "circular")
 \* C14: rc(r >> k) and rc(r) << k are the same record, part order of joins included
 CommuteFails(e) ==
   IF e.exc # "" THEN {"C14:ReverseComplementRaises"} ELSE
@@ -95,6 +99,7 @@ Next ==
                  [] e.ev = "RevComp" -> RevCompFails(e, o, nt2)
                  [] e.ev = "Contains" -> ContainsFails(e)
                  [] e.ev = "Slice" -> SliceFails(e)
+                 [] e.ev = "SliceStep" -> SliceStepFails(e)
                  [] e.ev = "Add" -> AddFails(e)
                  [] e.ev = "Commute" -> CommuteFails(e)
                  [] e.ev = "WrapLinear" -> WrapFails(e)
